@@ -54,6 +54,10 @@ CLAIMS = {
    text="Static decision of structural clauses of the column and base-matrix classes behind 'a general matrix behaves as a dense matrix': the coefficient of multiply_source_and_add reaches every entry whose value is copied from the source (all nine column types and the shared helper); every non-delegating multiply-and-add guards a zero coefficient (return / clear / throw); lazy state stays invisible - Vector_column marks a row erased only if it is stored, every loop over its entries consults the erased set, Heap_column counts every pushed entry; with row access an entry is unlinked before it is destroyed; no container is iterated while it holds destroyed entries; the one-sided arms of the lazy row swap are mirror images; in the column-compressed matrix every column moved into a slot gets that slot as representative index. Contents read back for all operation sequences are not decided.",
    note="Trusted: clang 14 parser; template patterns; tables/c09.json (four exempt loops with reasons). Four genuine defects found by these rules were repaired in /repo (known_findings.json, fixed).",
    tech="information-flow, sibling/mirror agreement and typestate path rules over the clang AST (E10, E7, E2)", ref="DESIGN.md 4/C09"),
+ "C05": dict(
+   text="Static decision of invariant-maintenance clauses of the persistence-matrix flavours: on every path of RU_matrix and RU_vine_swap the stored factor U receives the mirror of every column operation applied to R (add / multiply-and-add / column and row swaps / insertion / removal; helper functions are summarised and accounted at their callers), which is necessary for R and U to keep factoring the boundary matrix; the reduction emits exactly one barcode event per inserted column and records the pivot exactly when the column stays non-zero; remove_last removes one bar and forgets the pivot; the chain matrix keeps its pivot dictionary in step with column insertions, removals and pivot-changing additions. That the reductions are correct (R reduced, barcode equal to an independent reduction) is not decided.",
+   note="Trusted: clang 14 parser; template patterns; for Z2 the factor U is stored transposed, so a column addition on R is mirrored by add_to with exchanged indices or by one pushed entry.",
+   tech="companion-update / counting path rules with helper summaries over the clang AST (E2, E2n)", ref="DESIGN.md 4/C05"),
 }
 
 NA = {
